@@ -349,6 +349,12 @@ def gen_program(rng, ncomp=None):
         g.next_var += 1
         comps.insert(rng.randrange(len(comps) + 1), (f'push("k{k}", {e})', f"(CAct (PushN {k} {qe}))"))
         comps.append((f'{b} -> @p{v} = pop("k{k}")', f"(CWhen {qb} (Pop {v} {k}))"))
+    if not textonly and rng.random() < 0.12:
+        # mod() over a numeric column (cells may be empty: mod() raises, the component declines the line)
+        h, k, r = rng.choice([1, 2]), rng.choice([2, 3, -2, 5]), rng.choice([0, 0, 1, -1])
+        hn = HDR[h]
+        comps.insert(rng.randrange(len(comps) + 1), rng.choice([(f"mod(#{hn}, {k}) == {r}", f"(CMod false {h}%nat ({k}) ({r}))"),
+                                                                 (f"not(above(mod(#{hn}, {k}), {r}))", f"(CMod true {h}%nat ({k}) ({r}))")]))
     cw = rng.random() < 0.1
     scan = rng.choice(TEXT_SCANS if textonly else SCANS)
     return {"comps": comps, "AND": AND, "cw": cw, "scan": scan, "uses_lt": g.uses_lt, "textonly": textonly}
@@ -368,7 +374,15 @@ def corner_programs():
     N3 = [HDR[:], ["r1", "4", "9", "a", "b"], ["r2", "3", "1", "a", "b"], ["r3", "200", "7", "q", "b"], ["r4", "2", "2", "a", "q"]]
     Q = lambda **k: "(Assign.mkQ false %s %s %s %s %s false %s)" % tuple("true" if k.get(n) else "false" for n in ("latch", "onchange", "increase", "decrease", "notnone", "nocontrib"))
     INC = [HDR[:]] + [[f"r{i}", str(v), str(9 - v), "a", "b"] for i, v in enumerate([0, 1, 2, 2, 5, 5, 3, 5, 7], 1)]
+    # mod() over cells that are numbers (negative too), empty, blank, text, or not there
+    M = [HDR[:], ["r1", "12", "7", "a", "b"], ["r2", "7", "12", "a", "b"], ["r3", "", "4", "a", "b"], ["r4", "-3", "", "a", "b"], ["r5", "  ", "0", "a", "b"], ["r6"],
+         ["r7", "0", "-4", "a", "b"], ["r8", "abc", "9", "a", "b"], ["r9", "30"]]
     return [
+        P([("mod(#n, 2) == 0", "(CMod false 1%nat 2 0)")], rows=M),
+        P([("not(above(mod(#n, 2), 0))", "(CMod true 1%nat 2 0)")], rows=M),
+        P([("mod(#m, 3) == 1", "(CMod false 2%nat 3 1)"), ("no()", "(CB BNo)")], rows=M, AND=False),
+        P([("mod(#n, -2) == -1", "(CMod false 1%nat (-2) (-1))"), ("@v1 = count_lines()", "(CAct (AssignN 1 NCountLines))")], rows=M),
+        P([("mod(#m, 2) == 0", "(CMod false 2%nat 2 0)")], rows=E),
         # qualified assignments (the table of C14 inside a whole csvpath): increase over a column that repeats its running maximum,
         # latch whose first value is 0, onchange, decrease, notnone over a column some records lack
         P([("@v1.increase = int(#n)", f"(CAgg (AssignQ {Q(increase=True)} 1 (NInt (NHdr 1))))")], rows=INC),
@@ -469,7 +483,8 @@ def impl(job):
     try:
         with Quiet():
             p = CsvPath()
-            p.config.csvpath_errors_policy = ["raise", "collect"]
+            # errors raise — except where the csvpath uses mod(), whose meaning on a non-numeric cell IS "an error, the component declines"
+            p.config.csvpath_errors_policy = ["collect"] if "mod(" in out["text"] else ["raise", "collect"]
             p.parse(out["text"])
             lines = p.collect()
         sc = p.scanner
